@@ -21,6 +21,13 @@ Streams
      the head, one div per written language, one p with begin/end per caption (per run for legacy/single), Coq ok_refs
      on ids / style= (head AND body) / region=.
   H  histories: one writer object, 2-4 write() calls on sets with different style-id vocabularies.
+  K  (wave 7) the document skeleton: the bs4 tree every writer of stream D hands to prettify() is captured (a spy around
+     BeautifulSoup.prettify), cut into the skeleton tt / head / styling / style* / layout / region* / body / div* / p*
+     (attribute dictionaries in insertion order, the <p> strings) and rendered by the Coq model DfxpSkel.dfxp_document
+     (request 714): the string must EQUAL the writer's output byte for byte. The Coq document machine (request 715:
+     SpecXmlDoc.doc_parse + ns_ok + root tt in the TTML namespace) must accept every such output, count as many elements
+     as expat, and agree with expat on damaged variants of it (second root, text outside the root, white space before
+     the declaration, missing end tag, undeclared tts prefix, no declaration, other quotes / standalone).
 Every R / D / H violation record carries the pickled caption set(s): `./check C07 --replay` re-runs it.
 """
 import re
@@ -39,6 +46,9 @@ from pycaption import (DFXPWriter, DFXPReader, SRTReader, WebVTTReader, SAMIRead
                        SCCWriter, CaptionSet, CaptionList, Caption, CaptionNode)
 from pycaption.dfxp import SinglePositioningDFXPWriter, LegacyDFXPWriter
 from pycaption.dfxp.base import RegionCreator
+import bs4
+from bs4 import BeautifulSoup
+from bs4.element import Tag, NavigableString
 from pycaption.geometry import Layout, Point, Size, Stretch, Padding, Alignment, UnitEnum, HorizontalAlignmentEnum, \
     VerticalAlignmentEnum
 
@@ -452,6 +462,160 @@ def layout_pool(absolute=False):
 
 class Recorder:
     seen = None
+
+
+# ---- stream K: the tree handed to prettify -------------------------------------------------------------------------
+class TreeSpy:
+    last = None
+
+
+_orig_prettify = BeautifulSoup.prettify
+
+
+def _spy_prettify(self, *a, **k):
+    if isinstance(self, BeautifulSoup):
+        try:
+            TreeSpy.last = skeleton_of_tree(self)
+        except Exception as e:                      # never disturb the writer
+            TreeSpy.last = ("error", repr(e))
+    return _orig_prettify(self, *a, **k)
+
+
+BeautifulSoup.prettify = _spy_prettify
+
+
+def _kids(tag):
+    """element children; None when there is a non-blank string among the children"""
+    out = []
+    for c in tag.contents:
+        if isinstance(c, Tag):
+            out.append(c)
+        elif isinstance(c, NavigableString) and type(c) is NavigableString:
+            if c.strip():
+                return None
+        else:
+            return None
+    return out
+
+
+def _attrs(tag):
+    return [[str(k), str(v)] for k, v in tag.attrs.items()]
+
+
+def skeleton_of_tree(soup):
+    """the skeleton the model renders, or ("no-skeleton", why)"""
+    top = _kids(soup)
+    if top is None or [t.name for t in top] != ["tt"]:
+        return ("no-skeleton", "root")
+    tt = top[0]
+    k = _kids(tt)
+    if k is None or [t.name for t in k] != ["head", "body"] or k[0].attrs or k[1].attrs:
+        return ("no-skeleton", "tt children")
+    head, body = k
+    hk = _kids(head)
+    if hk is None or [t.name for t in hk] != ["styling", "layout"] or hk[0].attrs or hk[1].attrs:
+        return ("no-skeleton", "head children")
+    sts, rgs = _kids(hk[0]), _kids(hk[1])
+    if sts is None or rgs is None or any(t.name != "style" or t.contents for t in sts) or any(t.name != "region" or t.contents for t in rgs):
+        return ("no-skeleton", "styling / layout children")
+    divs = _kids(body)
+    if divs is None or any(t.name != "div" for t in divs):
+        return ("no-skeleton", "body children")
+    dvs = []
+    for dv in divs:
+        ps = _kids(dv)
+        if ps is None or any(t.name != "p" for t in ps):
+            return ("no-skeleton", "div children")
+        pl = []
+        for p_ in ps:
+            if len(p_.contents) != 1 or type(p_.contents[0]) is not NavigableString:
+                return ("no-skeleton", "p children")
+            pl.append([_attrs(p_), str(p_.contents[0])])
+        dvs.append([_attrs(dv), pl])
+    return ("ok", [_attrs(tt), [_attrs(t) for t in sts], [_attrs(t) for t in rgs], dvs])
+
+
+TTS_DECL = ' xmlns:tts="http://www.w3.org/ns/ttml#styling"'
+
+
+def damaged_variants(out):
+    """(label, text, expected verdict of the spec or None = whatever expat says)"""
+    v = [("second_root", out + "<x/>"), ("text_after_root", out + "x"), ("text_before_declaration", "x" + out),
+         ("white_space_before_declaration", "\n" + out), ("end_tag_missing", out.rstrip()[:-len("</tt>")]),
+         ("no_declaration", out.split("\n", 1)[1] if out.startswith("<?xml") else out),
+         ("other_declaration", out.replace('<?xml version="1.0" encoding="utf-8"?>', "<?xml version='1.0'  encoding = \"UTF-8\" standalone='yes' ?>", 1)),
+         ("declaration_without_version", out.replace(' version="1.0"', "", 1)),
+         ("reference_after_root", out + "&#32;")]
+    if TTS_DECL in out:
+        v.append(("tts_prefix_undeclared", out.replace(TTS_DECL, "", 1)))
+    return v
+
+
+def expat_accepts(text):
+    try:
+        root = ET.fromstring(text.encode("utf-8"))
+        return True, sum(1 for _ in root.iter())
+    except ET.ParseError:
+        return False, 0
+
+
+def stream_skeleton(ctx, acc, docs):
+    """docs: list of (inp, rp, out, captured skeleton)"""
+    rng = ctx.rng
+    reqs, plan = [], []
+    for inp, rp, out, sk in docs:
+        if len(out) > 60000:
+            acc.count("K_document_longer_than_60000_characters(not sent)")
+            continue
+        if not xml_char_ok(out):
+            acc.count("K_document_with_non_XML_characters(outside the domain)")
+            continue
+        if sk is None or sk[0] != "ok":
+            acc.count("K_tree_is_not_the_skeleton:%s" % (sk[1] if sk else "not captured"))
+            acc.res["disagreements"].append({"stream": "K-skeleton", "input": inp, "what": "the tree handed to prettify is not the "
+                                             "skeleton tt/head/styling/layout/body/div/p of the model: %r" % (sk,)})
+            continue
+        reqs.append((714, sk[1]))
+        plan.append(("render", inp, rp, out, None))
+        reqs.append((715, out))
+        plan.append(("parse", inp, rp, out, None))
+        if rng.random() < 0.15:
+            for label, text in damaged_variants(out):
+                reqs.append((715, text))
+                plan.append(("damaged", inp, rp, text, label))
+    for (kind, inp, rp, text, label), r in zip(plan, oracle_batch(reqs)):
+        acc.res["evaluations"] += 1
+        if kind == "render":
+            if r == text:
+                acc.count("K_documents_rendered_by_the_model_equal_the_output_byte_for_byte")
+                acc.count("K_p_elements_rendered", text.count("<p "))
+                acc.count("K_empty_element_tags_rendered", text.count("/>") - text.count("<br/>"))
+                acc.res["nontrivial"].add(("K", inp["writer"], text))
+            else:
+                i = next((j for j, (a, b) in enumerate(zip(r, text)) if a != b), min(len(r), len(text))) if isinstance(r, str) else 0
+                acc.res["disagreements"].append(dict({"stream": "K-render", "input": inp, "what": "DfxpSkel.dfxp_document of the tree the "
+                                                 "writer built differs from the writer's output at offset %d" % i,
+                                                 "model": (r[max(0, i - 80):i + 80] if isinstance(r, str) else r),
+                                                 "impl": text[max(0, i - 80):i + 80]}, **rp))
+        else:
+            ok, n = expat_accepts(text)
+            spec_ok = bool(r[0]) and bool(r[1])
+            if kind == "parse":
+                if not ok:
+                    continue                    # judged as a violation by stream D
+                if spec_ok and r[2] and r[3] == n:
+                    acc.count("K_outputs_accepted_by_the_document_machine(ns_ok, tt in TTML namespace, element count = expat)")
+                else:
+                    acc.res["disagreements"].append(dict({"stream": "K-parse", "input": inp, "what": "the Coq document machine "
+                                                     "(doc_parse, ns_ok, root_in_ns, elements) answers %r on an output expat accepts with %d elements" % (r, n),
+                                                     "document": text[:3000]}, **rp))
+            else:
+                if spec_ok == ok and (not ok or r[3] == n):
+                    acc.count("K_damaged_%s_%s_by_both" % (label, "accepted" if ok else "refused"))
+                else:
+                    acc.res["disagreements"].append({"stream": "K-damaged", "input": inp, "what": "damaged document (%s): expat %s, "
+                                                     "Coq document machine %r" % (label, "accepts" if ok else "refuses", r),
+                                                     "document": text[:3000]})
 
 
 def recording_writer(base, **kw):
@@ -970,7 +1134,7 @@ def judge_document(acc, cs, wname, kw, force, out, inp, rp, src=None, label=""):
     return True
 
 
-def stream_documents(ctx, acc):
+def stream_documents(ctx, acc, kdocs=None):
     rng = ctx.rng
     sources = [("api", lambda: api_set(ctx)) for _ in range(ctx.n(150, 3000))] + reader_sets(ctx)
     # fixed shapes for "one p per RUN": label 1-5 s next to a line 1-3 s; equal end, different start; runs of 1-4
@@ -1008,7 +1172,9 @@ def stream_documents(ctx, acc):
             langs = cs.get_languages()
             force = rng.choice([None, None, "", rng.choice(langs), "zz"])
             w = WRITERS[wname](**kw)
+            TreeSpy.last = None
             out = impl.call(lambda: w.write(cs, force=force) if force is not None else w.write(cs))
+            sk = TreeSpy.last
             acc.res["evaluations"] += 1
             inp = {"source": src, "writer": wname, "options": {k: repr(v) for k, v in kw.items()}, "force": force,
                    "set": gens.describe_capset(cs), "styles": repr(cs.get_styles())[:500]}
@@ -1030,6 +1196,8 @@ def stream_documents(ctx, acc):
                 acc.count("D_scc_generated_style_nodes", sum(1 for n in nodes if n.type_ == CaptionNode.STYLE))
                 acc.count("D_scc_generated_captions_with_several_layouts",
                           sum(1 for l in langs for c in cs.get_captions(l) if len({id(n.layout_info) for n in c.nodes}) > 1))
+            if kdocs is not None:
+                kdocs.append((inp, rp, out.v, sk))
             if judge_document(acc, cs, wname, kw, force, out.v, inp, rp):
                 acc.res["nontrivial"].add(("D", src, wname, out.v))
                 acc.count("D_ok_" + src)
@@ -1112,9 +1280,12 @@ def run(ctx):
     stream_values(ctx, acc)
     stream_payload(ctx, acc)
     stream_regions(ctx, acc)
-    stream_documents(ctx, acc)
+    kdocs = []
+    stream_documents(ctx, acc, kdocs)
+    stream_skeleton(ctx, acc, kdocs)
     stream_histories(ctx, acc)
     res = acc.res
+    res["streams"] = 6
     res["samples"] = [x[1] for x in list(res["nontrivial"]) if x[0] == "S"][:5]
     res["rule"] = ("S: attribute values containing one of & < > \" '; P: distinct (writer, node lists) whose payload is accepted by "
                    "both parsers with the model's events; R: distinct (ids, references) structures equal to the model up to "
